@@ -275,9 +275,19 @@ def run(ctx):
                     for b2, t2 in f.calls():
                         if t2 is root.meta:
                             made = b2
-                spans = made is not None and len(M.loops_containing(f, made)) <= len(M.loops_containing(f, bb)) - 2
-                detail = "probed set `%s` seeded from declared state_mutations: %s; created outside the data-output loop (lives across all outputs of the solution): %s" % (txt[:120], seeded, spans)
-                ok = ok or (seeded and spans)
+                depth_made = len(M.loops_containing(f, made)) if made is not None else None
+                depth_push = len(M.loops_containing(f, bb))
+                spans = made is not None and depth_made <= depth_push - 2
+                # ... and must not leak keys from one solution into the next: it is created inside the per-solution loop
+                # (exactly two levels above the push), or it is emptied there
+                per_solution = made is not None and depth_made == depth_push - 2
+                if spans and not per_solution:
+                    outer = sorted(M.loops_containing(f, bb), key=lambda l: -len(l[1]))
+                    sol_loop = outer[0][1] if outer else set()
+                    per_solution = any(b2 in sol_loop and re.search(r"HashSet::clear$", M.callee_of(t2)) and M.render(M.peel(pv.of_operand(t2["args"][0]))) == txt for b2, t2 in f.calls())
+                detail = ("probed set `%s` seeded from declared state_mutations: %s; created outside the data-output loop (lives across all outputs of the solution): %s; "
+                          "fresh for every solution (keys are scoped by contract): %s" % (txt[:120], seeded, spans, per_solution))
+                ok = ok or (seeded and spans and per_solution)
             ctx.ob("R4", "computed-keys-tested-against-declared", ok, f.loc(bb), detail, f)
 
 
